@@ -384,6 +384,7 @@ class FnWalk:
         self.params = {}
         ann = {x.arg: (ast.unparse(x.annotation).strip("'\"") if x.annotation is not None else None)
                for x in f.node.args.posonlyargs + f.node.args.args + f.node.args.kwonlyargs}
+        self.str_params = {p for p, a in ann.items() if a in ("str", "Optional[str]")}
         for p in f.pos + f.kwonly:
             self.params[p] = {"F"} if ann.get(p) in SCALAR_ANN else {"P:" + p}
         if f.self_name:
@@ -563,6 +564,8 @@ class FnWalk:
         if isinstance(v, ast.Name):
             if v.id in self.narrowed_names(fn):
                 return True
+            if v.id in self.str_params and v.id not in self.env:
+                return True     # a parameter declared `: str` that is never rebound: a builtin string
             if v.id == "str":
                 return True
             o = self.ev(v)
